@@ -134,8 +134,17 @@ Definition run_idem_spec (prev : option trun) (r : trun) : bool :=
   | None => true
   end.
 
+(** a job only copies: whatever the outcome of the run, the sink's version of an entity some
+    source member contains is a version that member's feed contains (in particular a failed
+    fullsync deletes nothing) *)
+Definition run_origin_spec (srcs : list feed) (r : trun) : bool :=
+  forallb (fun w =>
+    forallb (fun fn => let cut := firstn (Z.to_nat (snd fn)) (fst fn) in
+                       negb (zmem (v_id w) (ids cut)) || existsb (version_eqb w) cut)
+            (combine srcs (tr_srclens r))) (tr_sink r).
+
 Definition run_spec (srcs : list feed) (prev : option trun) (r : trun) : bool :=
-  run_safe_spec srcs r && run_conv_spec srcs r && run_idem_spec prev r.
+  run_safe_spec srcs r && run_conv_spec srcs r && run_idem_spec prev r && run_origin_spec srcs r.
 
 Fixpoint spec_ops (srcs : list feed) (prev : option trun) (ops : list top) : bool :=
   match ops with
